@@ -8,14 +8,14 @@ EXTENDS LitTables, Sequences, TLC, Json
 CONSTANTS MaxDepth, LitIdx      \* LitIdx: the literal indices used as leaves
 
 LTok(i) == "L" \o ToString(i)
-QuickLits == {LTok(i) : i \in {1, 2, 5, 9, 11, 14, 16, 19, 21, 23, 28}}
+QuickLits == {LTok(i) : i \in {1, 2, 5, 9, 11, 14, 16, 19, 20, 21, 23, 28}}
 AllLits == {LTok(i) : i \in DOMAIN Lits}
 IsLit(p) == p \in AllLits
 LitOf(p) == Lits[CHOOSE i \in DOMAIN Lits : LTok(i) = p]
 (* negated literal leaves (`-7`): a leaf, so that every operator meets negative operands already at the *)
 (* exhaustive level (sign of the remainder, rounding of the quotient, shifts of negative values, ...)  *)
 NTok(i) == "N" \o ToString(i)
-NegIdx == {NTok(i) : i \in {j \in DOMAIN Lits : LTok(j) \in LitIdx /\ Lits[j].kind # "byte" /\ Lits[j].src \notin {"0", "B0", "0.0"}}}
+NegIdx == {NTok(i) : i \in {j \in DOMAIN Lits : LTok(j) \in LitIdx /\ Lits[j].kind # "byte" /\ Lits[j].src \notin {"0", "B0"}}}
 AllNegs == {NTok(i) : i \in DOMAIN Lits}
 IsNeg(p) == p \in AllNegs
 NegOf(p) == Lits[CHOOSE i \in DOMAIN Lits : NTok(i) = p]
